@@ -122,6 +122,9 @@ pub trait Sut: Sized {
     fn acc(&mut self, sp: Sp, sub: bool, o: &[u32]);
     fn split2(self) -> (u32, u32);
     fn split3(self) -> (u32, u32, u32);
+    /// the matrix-product client built on the quire: `a.quire_dot(&b)` for an r×k by k×c product
+    /// (row-major operands, row-major result)
+    fn matdot(r: usize, k: usize, c: usize, a: &[u32], b: &[u32]) -> Vec<u32>;
 }
 
 fn img8(v: u32) -> Img {
@@ -245,6 +248,22 @@ macro_rules! impl_sut {
             fn split3(self) -> (u32, u32, u32) {
                 let (a, b, c) = <$Q>::into_three_posits(self);
                 (a.to_bits() as u32, b.to_bits() as u32, c.to_bits() as u32)
+            }
+            fn matdot(r: usize, k: usize, c: usize, a: &[u32], b: &[u32]) -> Vec<u32> {
+                use nalgebra::DMatrix;
+                use softposit::QuireDot;
+                let av: Vec<$P> = a.iter().map(|&x| <$P>::from_bits(x as $U)).collect();
+                let bv: Vec<$P> = b.iter().map(|&x| <$P>::from_bits(x as $U)).collect();
+                let ma = DMatrix::<$P>::from_row_slice(r, k, &av);
+                let mb = DMatrix::<$P>::from_row_slice(k, c, &bv);
+                let out = ma.quire_dot(&mb);
+                let mut v = Vec::with_capacity(r * c);
+                for i in 0..r {
+                    for j in 0..c {
+                        v.push(out[(i, j)].to_bits() as u32);
+                    }
+                }
+                v
             }
         }
     };
